@@ -7,7 +7,9 @@ open TTV TTV.Run
 
 def drv : PropDrv Input (List Trace) :=
   { decI := RunCodec.input?, decT := RunCodec.traces?, encT := RunCodec.ofTraces, model := model,
-    clauses := Spec.C03.clauses }
+    clauses := Spec.C03.clauses,
+    -- inputs outside the well-formedness hypothesis make every clause vacuous: flagged so that the harness can count them
+    classes := fun i => if Spec.Run.wf i.prog then [] else ["not-wf"] }
 
 def handle : List Sexp → Sexp := drv.handle
 end TTV.Drv.C03
